@@ -24,7 +24,7 @@ RULE = (
 ASSUMPTIONS = ["syntax as in the statement (vf/ref/obis_ref.py)"]
 WATCHDOG_S = {"quick": 600, "thorough": 3600}
 N = {"quick": 1300, "thorough": 62000}
-BOUNDARY = (0, 1, 9, 10, 99, 100, 255)
+BOUNDARY = (0, 1, 2, 3, 4, 9, 10, 24, 96, 97, 98, 99, 100, 128, 199, 254, 255)  # incl. values with a meaning of their own (M-Bus, electricity, abstract, manufacturer specific)
 
 
 def plan(tier, seed):
@@ -93,6 +93,14 @@ def check_wellformed(groups, text, ctx, syntax) -> None:
         ctx.violation("C20:equality:string-not-parsed", f"Obis.from_string({text!r}) != {text!r}", case)
     if o == "no obis here":
         ctx.violation("C20:equality:garbage-string-equal", f"{text!r} == 'no obis here'", case)
+    # derived objects: equal groups <=> equal and equal hash, also when the source object was hashed before
+    flt = getattr(o, "filter_group_cde", None)
+    if flt is not None:
+        hash(o)
+        f_obj = flt()
+        f_want = obis.Obis((None, None, groups[2], groups[3], groups[4], None))
+        if not (f_obj == f_want) or hash(f_obj) != hash(f_want) or f_obj not in {f_want}:
+            ctx.violation("C20:equality:derived-object-hash", f"{text!r}: filter_group_cde() == fresh object: {f_obj == f_want}, hashes equal: {hash(f_obj) == hash(f_want)}", case)
     cde = o.to_group_cdr_str()
     if cde != f"{groups[2]}.{groups[3]}.{groups[4]}":
         ctx.violation("C20:cde-string", f"{text!r}: C.D.E string {cde!r}", case)
